@@ -534,3 +534,103 @@ def rt_spline_grid(prop, first_only=False, count=None):
     if count is not None:
         count.append(n)
     return fails
+
+
+# --------------------------------------------------------------------------------------
+# C03: change of variables on the three evaluation paths of real Transformed distributions
+def _perturb(tree, seed, scale=0.3):
+    import equinox as eqx
+    from flowjax.wrappers import NonTrainable
+
+    rng = np.random.default_rng(seed)
+    params, static = eqx.partition(tree, eqx.is_inexact_array, is_leaf=lambda l: isinstance(l, NonTrainable))
+    leaves, tdef = jax.tree_util.tree_flatten(params)
+    leaves = [l + scale * jnp.asarray(rng.normal(size=l.shape), l.dtype) for l in leaves]
+    return eqx.combine(jax.tree_util.tree_unflatten(tdef, leaves), static)
+
+
+def c03_configs(tier):
+    import flowjax.bijections as B
+    import flowjax.distributions as Dm
+    import flowjax.flows as Fl
+    import jax.random as jr
+
+    k = jr.PRNGKey(0)
+    aff = lambda: B.Affine(jnp.array([0.3, -1.0]), jnp.array([1.7, 0.5]))  # noqa: E731
+    cfg = []
+    cfg.append(("Transformed(StandardNormal, Affine)", Dm.Transformed(Dm.StandardNormal((2,)), aff()), None))
+    cfg.append(("Transformed(Normal, Chain[Affine, Tanh])", Dm.Transformed(Dm.Normal(jnp.array([0.2, -0.4]), jnp.array([0.7, 1.3])), B.Chain([aff(), B.Tanh((2,))])), None))
+    addc = B.AdditiveCondition(lambda c: jnp.array([1.0, -2.0]) * c.sum(), (2,), (3,))
+    cfg.append(("Transformed(StandardNormal, AdditiveCondition) [conditional bijection]", Dm.Transformed(Dm.StandardNormal((2,)), addc), 3))
+    cond_base = Dm.Transformed(Dm.StandardNormal((2,)), addc)
+    cfg.append(("Transformed(conditional base, Affine) [conditional base, unconditional bijection]", Dm.Transformed(cond_base, aff()), 3))
+    cfg.append(("Transformed(conditional base, conditional bijection)", Dm.Transformed(cond_base, B.Chain([aff(), addc])), 3))
+    for name, fac, kw in (("coupling_flow", Fl.coupling_flow, {}), ("masked_autoregressive_flow", Fl.masked_autoregressive_flow, {}), ("planar_flow", Fl.planar_flow, dict(negative_slope=0.1))):
+        for invert in (True, False):
+            for cd in (None, 3):
+                try:
+                    d = fac(k, base_dist=Dm.StandardNormal((2,)) if name != "masked_autoregressive_flow" else Dm.Normal(jnp.zeros(2), jnp.ones(2)), cond_dim=cd, flow_layers=2, invert=invert, **kw)
+                    cfg.append((f"{name}(invert={invert}, cond_dim={cd}) perturbed", _perturb(d, 5), cd))
+                except Exception as ex:  # noqa: BLE001
+                    cfg.append((f"{name}(invert={invert}, cond_dim={cd})", ex, cd))
+    return cfg
+
+
+def rt_c03(tier="quick", first_only=False, count=None):
+    import jax.random as jr
+    from flowjax.wrappers import unwrap
+
+    fails, n = [], 0
+    for name, dist, cd in c03_configs(tier):
+        if isinstance(dist, Exception):
+            continue
+        ud = unwrap(dist)
+        for seed in (1, 2):
+            key = jr.PRNGKey(seed)
+            cond = None if cd is None else jnp.asarray(np.random.default_rng(seed).normal(size=(cd,)))
+            n += 1
+            problems = []
+            s = dist.sample(key, condition=cond)
+            base_cond = cond if ud.base_dist.cond_shape is not None else None
+            bij_cond = cond if ud.bijection.cond_shape is not None else None
+            zs = ud.base_dist.sample(key, condition=base_cond)  # public API: same key derivation as dist.sample
+            push = ud.bijection.transform(zs, bij_cond)
+            if not bool(jnp.allclose(s, push, rtol=1e-9, atol=1e-9)):
+                problems.append(f"sample(key) = {np.asarray(s)} but bijection.transform(base sample for that key) = {np.asarray(push)}")
+            x = np.asarray(s) + 0.1
+            lp = dist.log_prob(x, cond)
+            z, ild = ud.bijection.inverse_and_log_det(jnp.asarray(x), bij_cond)
+            ref = ud.base_dist._log_prob(z, base_cond) + ild
+            if bool(jnp.isfinite(ref)) and not _close(lp, ref, tol=1e-8):
+                problems.append(f"log_prob(x) = {float(lp)!r}; base log-density at inverse(x) + inverse log-det = {float(ref)!r}")
+            s2, lp2 = dist.sample_and_log_prob(key, condition=cond)
+            lp_at = dist.log_prob(s2, cond)
+            if not bool(jnp.allclose(s2, s, rtol=1e-9, atol=1e-9)):
+                problems.append("sample_and_log_prob(key)[0] differs from sample(key)")
+            if not _close(lp2, lp_at, tol=1e-6):
+                problems.append(f"sample_and_log_prob(key)[1] = {float(lp2)!r} but log_prob at that sample = {float(lp_at)!r}")
+            for pr in problems:
+                fails.append(dict(what=f"{name}: {pr}", case=dict(config=name, seed=seed)))
+                if first_only:
+                    return fails
+    # merge_transforms on nested Transformed with non-commuting bijections
+    import flowjax.bijections as B
+    import flowjax.distributions as Dm
+
+    bl = [B.Affine(jnp.array([0.3, -1.0]), jnp.array([1.7, 0.5])), B.Tanh((2,)), B.Affine(jnp.array([0.1, 0.2]), jnp.array([0.8, 0.9])), B.Chain([B.Affine(jnp.array([1.0, 2.0])), B.Exp((2,))])]
+    for depth in (2, 3, 4):
+        d = Dm.StandardNormal((2,))
+        for j in range(depth):
+            d = Dm.Transformed(d, bl[j])
+        m = d.merge_transforms()
+        n += 1
+        key = jr.PRNGKey(depth)
+        s_n, s_m = d.sample(key), m.sample(key)
+        x = np.asarray(s_n)
+        if not bool(jnp.allclose(s_n, s_m, rtol=1e-9, atol=1e-9)) or not _close(d.log_prob(x), m.log_prob(x), tol=1e-8) or isinstance(unwrap(m).base_dist, Dm.AbstractTransformed):
+            fails.append(dict(what=f"merge_transforms of {depth} nested Transformed changes the distribution: sample {np.asarray(s_n)} vs {np.asarray(s_m)}, log_prob {float(d.log_prob(x))!r} vs {float(m.log_prob(x))!r}", case=dict(depth=depth)))
+            if first_only:
+                return fails
+    if count is not None:
+        count.append(n)
+    return fails
